@@ -82,7 +82,7 @@ def holder_of(a, b):
     return CARRIER + free
 
 
-YEARS = {"none": None, "single": "2020", "range": "1999-2003", "spaced": "1999 - 2003", "comma": "2020,"}
+YEARS = {"none": None, "single": "2020", "range": "1999-2003", "spaced": "1999 - 2003"}  # the year forms of the statement
 
 
 def year_of(d):
